@@ -301,6 +301,12 @@ def runImport (cfg : Cfg) (fs : FS) (rec : Runner) (fr : Frame) (name : Name) (s
         | some (.done _), true => some (.ok (.mref p), st1)
         | _, _ => loadModule fs rec p st1
 
+/-- numbers and null: iterating them yields the value itself -/
+def V.scalar : V → Bool
+  | .int _ => true
+  | .null => true
+  | _ => false
+
 /-- `run_import` when the register already holds a value (the imported id is a local):
 maps succeed, anything else is a type error (strings do not occur in the fragment) -/
 def importValue : V → Except Err V
@@ -414,12 +420,12 @@ def execAct (cfg : Cfg) (fs : FS) (rec : Runner) (a : Act) (fr : Frame) (st : St
     | some (.error e, st1) => some (some e, fr, st1)
     | some (.ok mv, st1) =>
       -- with export_top_level_ids the imported value is iterated and every entry exported
-      -- (`compile_export_iterable`); a number yields itself, which is not a key/value pair.
+      -- (`compile_export_iterable`); a number or null yields itself, which is not a key/value pair.
       -- Envelope: when `m` is a local the real compiler iterates a register it never wrote
       -- (finding F-C18-2); the model exports the entries of the local's value there.
-      match fr.exportTop, mv with
-      | true, .int _ => some (some .exportEntry, addWild mv fr, st1)
-      | true, _ => some (none, addWild mv fr, exportAll ((resolve st1.cache mv).getD []) st1)
+      match fr.exportTop, mv.scalar with
+      | true, true => some (some .exportEntry, addWild mv fr, st1)
+      | true, false => some (none, addWild mv fr, exportAll ((resolve st1.cache mv).getD []) st1)
       | false, _ => some (none, addWild mv fr, st1)
   | .tryImport m mk =>
     match runImport cfg fs rec fr m st with
